@@ -1,10 +1,4 @@
 package tree
 
-import "qedverif/lib"
-
+// Workers are child-process entry points (qv worker <name> args...).
 var Workers = map[string]func(args []string) int{}
-
-func RunC01(c *lib.Ctx) { c.Inconclusive("C01: check not built yet") }
-func RunC02(c *lib.Ctx) { c.Inconclusive("C02: check not built yet") }
-func RunC03(c *lib.Ctx) { c.Inconclusive("C03: check not built yet") }
-func RunC13(c *lib.Ctx) { c.Inconclusive("C13: check not built yet") }
